@@ -6,14 +6,14 @@ MODE = "corpus"
 EXPLANATION = ("For every corpus class a valid symbolic object is generated and exactly one declaration-violating change is applied at a value-forked site (any field, any nesting depth, "
                "any array element, any case): required field None, wrong fixed length, over padded/length-field limit, integer at or above its limit (symbolic, unbounded above), wrong case data. "
                "z3 decides that the generated serializer cannot return normally.")
-BOUNDS = {"quick": "every class of corpus/core x every violation site reachable with strings of length 0/1 and arrays of 0/1 elements (fixed ones at their length +-1); over-limit integers: every v >= limit",
-          "thorough": "string lengths and array counts {0,1,2}"}
+BOUNDS = {"quick": "every class of corpus/core (plus a VERIF_SEED-chosen sample of 80 pairs + all singles of the generated pair corpus) x every violation site reachable with strings of length 0/1 and arrays of 0/1 elements (fixed ones at their length +-1); over-limit integers: every v >= limit",
+          "thorough": "core corpus plus ALL structs of the generated pair corpus; string lengths and array counts {0,1,2}"}
 OUTSIDE = "specifications not in the corpus; objects with two or more simultaneous violations; None for fields whose constructor already rejects None (arrays, strings feeding a length field)"
 ASSUMPTIONS = ["only the violation kinds listed in the property are in scope"]
 
 
 def trees(tier):
-    return [("core", corpus.CORE)]
+    return [("core", corpus.CORE), ("pairs", corpus.pairs(tier, corpus.seed(), 80)[0])]
 
 
 def programs(tier):
@@ -49,6 +49,14 @@ def jobs(tier):
         sites = count_sites(types, c["instrs"], mult)
         if sites == 0 or c["name"] in NO_SITES:
             continue
-        js.append(dict(name=f"refused[{c['name']}]", fn="refused", args=[types, c, cfg, sites + 2], tree="core", collect_models=2,
+        js.append(dict(name=f"refused[{c['name']}]", fn="refused", args=[corpus.closure(types, c["instrs"]), c, cfg, sites + 2], tree="core", collect_models=2,
                        may_be_empty=False, expect=["an object violating its declaration is refused (SerializationError / ValueError)"]))
+    _, ptypes, pcls = corpus.pairs(tier, corpus.seed(), 80)
+    for c in pcls:
+        sites = count_sites(ptypes, c["instrs"], mult)
+        if sites == 0:
+            continue
+        # generated pair structs: some offer no violation site -> may be empty; vacuity is guarded by the core corpus jobs
+        js.append(dict(name=f"refused[pairs:{c['name']}]", fn="refused", args=[corpus.closure(ptypes, c["instrs"]), c, cfg, sites + 2], tree="pairs", collect_models=1,
+                       may_be_empty=True))
     return js
